@@ -26,6 +26,9 @@ def load_check(pid):
 import contextlib
 
 
+_GC = {'n': 0}
+
+
 @contextlib.contextmanager
 def ambient(ctx, case):
     """ambient state of the interpreter / of NumPy that a caller may legitimately have set and that no result may depend on:
@@ -41,7 +44,10 @@ def ambient(ctx, case):
         elif k == 3:
             numpy.set_printoptions(threshold=1, edgeitems=1, precision=1, suppress=True)
         elif k == 2:
-            gc.collect()
+            # a full collection now and then (it costs milliseconds: 300 000 of them would dominate a thorough run), the youngest
+            # generation otherwise
+            _GC['n'] += 1
+            gc.collect() if _GC['n'] % 500 == 1 else gc.collect(0)
         ctx.extra.setdefault('ambient_state_cases', {})
         key = ['default', 'print options threshold=3', 'gc.collect() before the case', 'print options threshold=1'][k]
         ctx.extra['ambient_state_cases'][key] = ctx.extra['ambient_state_cases'].get(key, 0) + 1
